@@ -170,4 +170,30 @@ theorem tagBN_ignored (saved : Option (Nat × Nat)) (s : List Char)
   unfold tagBN
   rw [hp]
 
+/-- the search predicate: the text occurs in the message as a contiguous piece, nothing is stripped or folded -/
+theorem occursIn_iff (text : List Char) : ∀ (msg : List Char),
+    occursIn text msg = true ↔ ∃ a b, msg = a ++ text ++ b := by
+  intro msg
+  induction msg with
+  | nil =>
+    simp only [occursIn, List.isEmpty_iff]
+    constructor
+    · intro h; subst h; exact ⟨[], [], rfl⟩
+    · rintro ⟨a, b, h⟩
+      have := congrArg List.length h
+      simp at this
+      exact List.eq_nil_of_length_eq_zero (by omega)
+  | cons c cs ih =>
+    simp only [occursIn, Bool.or_eq_true, List.isPrefixOf_iff_prefix, ih]
+    constructor
+    · rintro (⟨t, ht⟩ | ⟨a, b, h⟩)
+      · exact ⟨[], t, by simpa using ht.symm⟩
+      · exact ⟨c :: a, b, by rw [h]; simp⟩
+    · rintro ⟨a, b, h⟩
+      cases a with
+      | nil => exact Or.inl ⟨b, by simpa using h.symm⟩
+      | cons x a =>
+        simp only [List.cons_append, List.cons.injEq] at h
+        exact Or.inr ⟨a, b, h.2⟩
+
 end Ghist
